@@ -6,7 +6,7 @@ import CoxeterVerif.Model.Tabulated
      standard literature (Coxeter, *Regular Polytopes*; Cromwell, *Polyhedra*; Johnson 1966)
      and independent of /repo: `(V, E, F)` and the face-type census of the 5 Platonic,
      13 Archimedean and 13 Catalan solids, and `(V, E, F)` of the 92 Johnson solids by number
-     (`namespace Textbook`, second half of this file).
+     (`namespace Textbook`, second half of this file; see also 3.).
   2. Executable, Bool-valued geometric predicates on integer data scaled by 10¹⁸
      (`Tab.Entry`).  They use only `+ - *` and comparisons of integers, bit operations on
      naturals and structural recursion on lists, so the kernel evaluates them
@@ -16,9 +16,13 @@ import CoxeterVerif.Model.Tabulated
        volume                    within 10⁻⁹ of 1
        squared lengths/distances equal within 2·10⁻⁹ relative (i.e. lengths within 10⁻⁹)
      Where a predicate is written in a kernel-friendly way (bit sets, forced literals) a plain
-     **reference definition** stands next to it; `convexOk = convexOkRef` is a theorem
-     (`Lemmas/Tabulated.lean`), the two bit-set predicates are compared with their reference
-     definitions by the driver on every entry and on corrupted certificates in every run.
+     **reference definition** stands next to it, and the two are proved equal: `convexOk_eq_ref`
+     (`Lemmas/Tabulated.lean`), `usesExactlyVerts_eq_ref`, `closedOriented_eq_ref`
+     (`Lemmas/TabulatedBits.lean`).  What every predicate MEANS as a statement over ℝ about the
+     vertices is proved, for every entry, in `Lemmas/TabulatedReal*.lean` / `TabulatedMeaning.lean`.
+  3. (V, E, F) + face census of the Johnson solids with Johnson's names, of the prisms / antiprisms
+     and pyramids / dipyramids, and of the seven repository solids outside the families; every
+     per-table obligation demands a row (no row ⇒ `false`).
 -/
 namespace Tab
 
@@ -116,9 +120,8 @@ def bitSum (l : List Nat) : Nat := l.foldl (fun acc c => Nat.add acc (Nat.shiftL
 /-- the set `{c}` as a bit set, `⋁ 2^c` -/
 def bitOr (l : List Nat) : Nat := l.foldl (fun acc c => Nat.lor acc (Nat.shiftLeft 1 c)) 0
 
-/-- **reference definition** (quadratic; compared with the bit-set version by the driver on
-    every entry and on corrupted certificates): every face index is a vertex index and every
-    vertex is used -/
+/-- **reference definition** (quadratic; `usesExactlyVerts_eq_ref`): every face index is a vertex
+    index and every vertex is used -/
 def usesExactlyVertsRef (e : Entry) : Bool :=
   let n := e.verts.length
   let idx := e.faces.flatMap id
@@ -342,31 +345,181 @@ def catalan : List Solid := [
   ⟨"Disdyakis Triacontahedron", 62, 180, 120, [(3, 120)]⟩,
   ⟨"Pentagonal Hexecontahedron", 92, 150, 60, [(5, 60)]⟩ ]
 
-/-- the 92 Johnson solids by number (Johnson 1966, Table III): V, E, F (no face census entered) -/
+/-- the 92 Johnson solids by number (Johnson 1966, Table III): V, E, F and the face census
+    (triangles, squares, pentagons, hexagons, octagons, decagons) -/
 def johnson : List Solid := [
-  ⟨"J1", 5, 8, 5, []⟩, ⟨"J2", 6, 10, 6, []⟩, ⟨"J3", 9, 15, 8, []⟩, ⟨"J4", 12, 20, 10, []⟩,
-  ⟨"J5", 15, 25, 12, []⟩, ⟨"J6", 20, 35, 17, []⟩, ⟨"J7", 7, 12, 7, []⟩, ⟨"J8", 9, 16, 9, []⟩,
-  ⟨"J9", 11, 20, 11, []⟩, ⟨"J10", 9, 20, 13, []⟩, ⟨"J11", 11, 25, 16, []⟩, ⟨"J12", 5, 9, 6, []⟩,
-  ⟨"J13", 7, 15, 10, []⟩, ⟨"J14", 8, 15, 9, []⟩, ⟨"J15", 10, 20, 12, []⟩, ⟨"J16", 12, 25, 15, []⟩,
-  ⟨"J17", 10, 24, 16, []⟩, ⟨"J18", 15, 27, 14, []⟩, ⟨"J19", 20, 36, 18, []⟩, ⟨"J20", 25, 45, 22, []⟩,
-  ⟨"J21", 30, 55, 27, []⟩, ⟨"J22", 15, 33, 20, []⟩, ⟨"J23", 20, 44, 26, []⟩, ⟨"J24", 25, 55, 32, []⟩,
-  ⟨"J25", 30, 65, 37, []⟩, ⟨"J26", 8, 14, 8, []⟩, ⟨"J27", 12, 24, 14, []⟩, ⟨"J28", 16, 32, 18, []⟩,
-  ⟨"J29", 16, 32, 18, []⟩, ⟨"J30", 20, 40, 22, []⟩, ⟨"J31", 20, 40, 22, []⟩, ⟨"J32", 25, 50, 27, []⟩,
-  ⟨"J33", 25, 50, 27, []⟩, ⟨"J34", 30, 60, 32, []⟩, ⟨"J35", 18, 36, 20, []⟩, ⟨"J36", 18, 36, 20, []⟩,
-  ⟨"J37", 24, 48, 26, []⟩, ⟨"J38", 30, 60, 32, []⟩, ⟨"J39", 30, 60, 32, []⟩, ⟨"J40", 35, 70, 37, []⟩,
-  ⟨"J41", 35, 70, 37, []⟩, ⟨"J42", 40, 80, 42, []⟩, ⟨"J43", 40, 80, 42, []⟩, ⟨"J44", 18, 42, 26, []⟩,
-  ⟨"J45", 24, 56, 34, []⟩, ⟨"J46", 30, 70, 42, []⟩, ⟨"J47", 35, 80, 47, []⟩, ⟨"J48", 40, 90, 52, []⟩,
-  ⟨"J49", 7, 13, 8, []⟩, ⟨"J50", 8, 17, 11, []⟩, ⟨"J51", 9, 21, 14, []⟩, ⟨"J52", 11, 19, 10, []⟩,
-  ⟨"J53", 12, 23, 13, []⟩, ⟨"J54", 13, 22, 11, []⟩, ⟨"J55", 14, 26, 14, []⟩, ⟨"J56", 14, 26, 14, []⟩,
-  ⟨"J57", 15, 30, 17, []⟩, ⟨"J58", 21, 35, 16, []⟩, ⟨"J59", 22, 40, 20, []⟩, ⟨"J60", 22, 40, 20, []⟩,
-  ⟨"J61", 23, 45, 24, []⟩, ⟨"J62", 10, 20, 12, []⟩, ⟨"J63", 9, 15, 8, []⟩, ⟨"J64", 10, 18, 10, []⟩,
-  ⟨"J65", 15, 27, 14, []⟩, ⟨"J66", 28, 48, 22, []⟩, ⟨"J67", 32, 60, 30, []⟩, ⟨"J68", 65, 105, 42, []⟩,
-  ⟨"J69", 70, 120, 52, []⟩, ⟨"J70", 70, 120, 52, []⟩, ⟨"J71", 75, 135, 62, []⟩, ⟨"J72", 60, 120, 62, []⟩,
-  ⟨"J73", 60, 120, 62, []⟩, ⟨"J74", 60, 120, 62, []⟩, ⟨"J75", 60, 120, 62, []⟩, ⟨"J76", 55, 105, 52, []⟩,
-  ⟨"J77", 55, 105, 52, []⟩, ⟨"J78", 55, 105, 52, []⟩, ⟨"J79", 55, 105, 52, []⟩, ⟨"J80", 50, 90, 42, []⟩,
-  ⟨"J81", 50, 90, 42, []⟩, ⟨"J82", 50, 90, 42, []⟩, ⟨"J83", 45, 75, 32, []⟩, ⟨"J84", 8, 18, 12, []⟩,
-  ⟨"J85", 16, 40, 26, []⟩, ⟨"J86", 10, 22, 14, []⟩, ⟨"J87", 11, 26, 17, []⟩, ⟨"J88", 12, 28, 18, []⟩,
-  ⟨"J89", 14, 33, 21, []⟩, ⟨"J90", 16, 38, 24, []⟩, ⟨"J91", 14, 26, 14, []⟩, ⟨"J92", 18, 36, 20, []⟩ ]
+  ⟨"J1", 5, 8, 5, [(3, 4), (4, 1)]⟩,
+  ⟨"J2", 6, 10, 6, [(3, 5), (5, 1)]⟩,
+  ⟨"J3", 9, 15, 8, [(3, 4), (4, 3), (6, 1)]⟩,
+  ⟨"J4", 12, 20, 10, [(3, 4), (4, 5), (8, 1)]⟩,
+  ⟨"J5", 15, 25, 12, [(3, 5), (4, 5), (5, 1), (10, 1)]⟩,
+  ⟨"J6", 20, 35, 17, [(3, 10), (5, 6), (10, 1)]⟩,
+  ⟨"J7", 7, 12, 7, [(3, 4), (4, 3)]⟩,
+  ⟨"J8", 9, 16, 9, [(3, 4), (4, 5)]⟩,
+  ⟨"J9", 11, 20, 11, [(3, 5), (4, 5), (5, 1)]⟩,
+  ⟨"J10", 9, 20, 13, [(3, 12), (4, 1)]⟩,
+  ⟨"J11", 11, 25, 16, [(3, 15), (5, 1)]⟩,
+  ⟨"J12", 5, 9, 6, [(3, 6)]⟩,
+  ⟨"J13", 7, 15, 10, [(3, 10)]⟩,
+  ⟨"J14", 8, 15, 9, [(3, 6), (4, 3)]⟩,
+  ⟨"J15", 10, 20, 12, [(3, 8), (4, 4)]⟩,
+  ⟨"J16", 12, 25, 15, [(3, 10), (4, 5)]⟩,
+  ⟨"J17", 10, 24, 16, [(3, 16)]⟩,
+  ⟨"J18", 15, 27, 14, [(3, 4), (4, 9), (6, 1)]⟩,
+  ⟨"J19", 20, 36, 18, [(3, 4), (4, 13), (8, 1)]⟩,
+  ⟨"J20", 25, 45, 22, [(3, 5), (4, 15), (5, 1), (10, 1)]⟩,
+  ⟨"J21", 30, 55, 27, [(3, 10), (4, 10), (5, 6), (10, 1)]⟩,
+  ⟨"J22", 15, 33, 20, [(3, 16), (4, 3), (6, 1)]⟩,
+  ⟨"J23", 20, 44, 26, [(3, 20), (4, 5), (8, 1)]⟩,
+  ⟨"J24", 25, 55, 32, [(3, 25), (4, 5), (5, 1), (10, 1)]⟩,
+  ⟨"J25", 30, 65, 37, [(3, 30), (5, 6), (10, 1)]⟩,
+  ⟨"J26", 8, 14, 8, [(3, 4), (4, 4)]⟩,
+  ⟨"J27", 12, 24, 14, [(3, 8), (4, 6)]⟩,
+  ⟨"J28", 16, 32, 18, [(3, 8), (4, 10)]⟩,
+  ⟨"J29", 16, 32, 18, [(3, 8), (4, 10)]⟩,
+  ⟨"J30", 20, 40, 22, [(3, 10), (4, 10), (5, 2)]⟩,
+  ⟨"J31", 20, 40, 22, [(3, 10), (4, 10), (5, 2)]⟩,
+  ⟨"J32", 25, 50, 27, [(3, 15), (4, 5), (5, 7)]⟩,
+  ⟨"J33", 25, 50, 27, [(3, 15), (4, 5), (5, 7)]⟩,
+  ⟨"J34", 30, 60, 32, [(3, 20), (5, 12)]⟩,
+  ⟨"J35", 18, 36, 20, [(3, 8), (4, 12)]⟩,
+  ⟨"J36", 18, 36, 20, [(3, 8), (4, 12)]⟩,
+  ⟨"J37", 24, 48, 26, [(3, 8), (4, 18)]⟩,
+  ⟨"J38", 30, 60, 32, [(3, 10), (4, 20), (5, 2)]⟩,
+  ⟨"J39", 30, 60, 32, [(3, 10), (4, 20), (5, 2)]⟩,
+  ⟨"J40", 35, 70, 37, [(3, 15), (4, 15), (5, 7)]⟩,
+  ⟨"J41", 35, 70, 37, [(3, 15), (4, 15), (5, 7)]⟩,
+  ⟨"J42", 40, 80, 42, [(3, 20), (4, 10), (5, 12)]⟩,
+  ⟨"J43", 40, 80, 42, [(3, 20), (4, 10), (5, 12)]⟩,
+  ⟨"J44", 18, 42, 26, [(3, 20), (4, 6)]⟩,
+  ⟨"J45", 24, 56, 34, [(3, 24), (4, 10)]⟩,
+  ⟨"J46", 30, 70, 42, [(3, 30), (4, 10), (5, 2)]⟩,
+  ⟨"J47", 35, 80, 47, [(3, 35), (4, 5), (5, 7)]⟩,
+  ⟨"J48", 40, 90, 52, [(3, 40), (5, 12)]⟩,
+  ⟨"J49", 7, 13, 8, [(3, 6), (4, 2)]⟩,
+  ⟨"J50", 8, 17, 11, [(3, 10), (4, 1)]⟩,
+  ⟨"J51", 9, 21, 14, [(3, 14)]⟩,
+  ⟨"J52", 11, 19, 10, [(3, 4), (4, 4), (5, 2)]⟩,
+  ⟨"J53", 12, 23, 13, [(3, 8), (4, 3), (5, 2)]⟩,
+  ⟨"J54", 13, 22, 11, [(3, 4), (4, 5), (6, 2)]⟩,
+  ⟨"J55", 14, 26, 14, [(3, 8), (4, 4), (6, 2)]⟩,
+  ⟨"J56", 14, 26, 14, [(3, 8), (4, 4), (6, 2)]⟩,
+  ⟨"J57", 15, 30, 17, [(3, 12), (4, 3), (6, 2)]⟩,
+  ⟨"J58", 21, 35, 16, [(3, 5), (5, 11)]⟩,
+  ⟨"J59", 22, 40, 20, [(3, 10), (5, 10)]⟩,
+  ⟨"J60", 22, 40, 20, [(3, 10), (5, 10)]⟩,
+  ⟨"J61", 23, 45, 24, [(3, 15), (5, 9)]⟩,
+  ⟨"J62", 10, 20, 12, [(3, 10), (5, 2)]⟩,
+  ⟨"J63", 9, 15, 8, [(3, 5), (5, 3)]⟩,
+  ⟨"J64", 10, 18, 10, [(3, 7), (5, 3)]⟩,
+  ⟨"J65", 15, 27, 14, [(3, 8), (4, 3), (6, 3)]⟩,
+  ⟨"J66", 28, 48, 22, [(3, 12), (4, 5), (8, 5)]⟩,
+  ⟨"J67", 32, 60, 30, [(3, 16), (4, 10), (8, 4)]⟩,
+  ⟨"J68", 65, 105, 42, [(3, 25), (4, 5), (5, 1), (10, 11)]⟩,
+  ⟨"J69", 70, 120, 52, [(3, 30), (4, 10), (5, 2), (10, 10)]⟩,
+  ⟨"J70", 70, 120, 52, [(3, 30), (4, 10), (5, 2), (10, 10)]⟩,
+  ⟨"J71", 75, 135, 62, [(3, 35), (4, 15), (5, 3), (10, 9)]⟩,
+  ⟨"J72", 60, 120, 62, [(3, 20), (4, 30), (5, 12)]⟩,
+  ⟨"J73", 60, 120, 62, [(3, 20), (4, 30), (5, 12)]⟩,
+  ⟨"J74", 60, 120, 62, [(3, 20), (4, 30), (5, 12)]⟩,
+  ⟨"J75", 60, 120, 62, [(3, 20), (4, 30), (5, 12)]⟩,
+  ⟨"J76", 55, 105, 52, [(3, 15), (4, 25), (5, 11), (10, 1)]⟩,
+  ⟨"J77", 55, 105, 52, [(3, 15), (4, 25), (5, 11), (10, 1)]⟩,
+  ⟨"J78", 55, 105, 52, [(3, 15), (4, 25), (5, 11), (10, 1)]⟩,
+  ⟨"J79", 55, 105, 52, [(3, 15), (4, 25), (5, 11), (10, 1)]⟩,
+  ⟨"J80", 50, 90, 42, [(3, 10), (4, 20), (5, 10), (10, 2)]⟩,
+  ⟨"J81", 50, 90, 42, [(3, 10), (4, 20), (5, 10), (10, 2)]⟩,
+  ⟨"J82", 50, 90, 42, [(3, 10), (4, 20), (5, 10), (10, 2)]⟩,
+  ⟨"J83", 45, 75, 32, [(3, 5), (4, 15), (5, 9), (10, 3)]⟩,
+  ⟨"J84", 8, 18, 12, [(3, 12)]⟩,
+  ⟨"J85", 16, 40, 26, [(3, 24), (4, 2)]⟩,
+  ⟨"J86", 10, 22, 14, [(3, 12), (4, 2)]⟩,
+  ⟨"J87", 11, 26, 17, [(3, 16), (4, 1)]⟩,
+  ⟨"J88", 12, 28, 18, [(3, 16), (4, 2)]⟩,
+  ⟨"J89", 14, 33, 21, [(3, 18), (4, 3)]⟩,
+  ⟨"J90", 16, 38, 24, [(3, 20), (4, 4)]⟩,
+  ⟨"J91", 14, 26, 14, [(3, 8), (4, 2), (5, 4)]⟩,
+  ⟨"J92", 18, 36, 20, [(3, 13), (4, 3), (5, 3), (6, 1)]⟩ ]
+
+/-- Johnson's names of J1 … J92, in order of number -/
+def johnsonNames : List String := [
+  "Square Pyramid", "Pentagonal Pyramid", "Triangular Cupola", "Square Cupola", "Pentagonal Cupola",
+  "Pentagonal Rotunda", "Elongated Triangular Pyramid", "Elongated Square Pyramid",
+  "Elongated Pentagonal Pyramid", "Gyroelongated Square Pyramid", "Gyroelongated Pentagonal Pyramid",
+  "Triangular Dipyramid", "Pentagonal Dipyramid", "Elongated Triangular Dipyramid",
+  "Elongated Square Dipyramid", "Elongated Pentagonal Dipyramid", "Gyroelongated Square Dipyramid",
+  "Elongated Triangular Cupola", "Elongated Square Cupola", "Elongated Pentagonal Cupola",
+  "Elongated Pentagonal Rotunda", "Gyroelongated Triangular Cupola", "Gyroelongated Square Cupola",
+  "Gyroelongated Pentagonal Cupola", "Gyroelongated Pentagonal Rotunda", "Gyrobifastigium",
+  "Triangular Orthobicupola", "Square Orthobicupola", "Square Gyrobicupola", "Pentagonal Orthobicupola",
+  "Pentagonal Gyrobicupola", "Pentagonal Orthocupolarotunda", "Pentagonal Gyrocupolarotunda",
+  "Pentagonal Orthobirotunda", "Elongated Triangular Orthobicupola", "Elongated Triangular Gyrobicupola",
+  "Elongated Square Gyrobicupola", "Elongated Pentagonal Orthobicupola", "Elongated Pentagonal Gyrobicupola",
+  "Elongated Pentagonal Orthocupolarotunda", "Elongated Pentagonal Gyrocupolarotunda",
+  "Elongated Pentagonal Orthobirotunda", "Elongated Pentagonal Gyrobirotunda",
+  "Gyroelongated Triangular Bicupola", "Gyroelongated Square Bicupola", "Gyroelongated Pentagonal Bicupola",
+  "Gyroelongated Pentagonal Cupolarotunda", "Gyroelongated Pentagonal Birotunda",
+  "Augmented Triangular Prism", "Biaugmented Triangular Prism", "Triaugmented Triangular Prism",
+  "Augmented Pentagonal Prism", "Biaugmented Pentagonal Prism", "Augmented Hexagonal Prism",
+  "Parabiaugmented Hexagonal Prism", "Metabiaugmented Hexagonal Prism", "Triaugmented Hexagonal Prism",
+  "Augmented Dodecahedron", "Parabiaugmented Dodecahedron", "Metabiaugmented Dodecahedron",
+  "Triaugmented Dodecahedron", "Metabidiminished Icosahedron", "Tridiminished Icosahedron",
+  "Augmented Tridiminished Icosahedron", "Augmented Truncated Tetrahedron", "Augmented Truncated Cube",
+  "Biaugmented Truncated Cube", "Augmented Truncated Dodecahedron", "Parabiaugmented Truncated Dodecahedron",
+  "Metabiaugmented Truncated Dodecahedron", "Triaugmented Truncated Dodecahedron",
+  "Gyrate Rhombicosidodecahedron", "Parabigyrate Rhombicosidodecahedron",
+  "Metabigyrate Rhombicosidodecahedron", "Trigyrate Rhombicosidodecahedron",
+  "Diminished Rhombicosidodecahedron", "Paragyrate Diminished Rhombicosidodecahedron",
+  "Metagyrate Diminished Rhombicosidodecahedron", "Bigyrate Diminished Rhombicosidodecahedron",
+  "Parabidiminished Rhombicosidodecahedron", "Metabidiminished Rhombicosidodecahedron",
+  "Gyrate Bidiminished Rhombicosidodecahedron", "Tridiminished Rhombicosidodecahedron", "Snub Disphenoid",
+  "Snub Square Antiprism", "Sphenocorona", "Augmented Sphenocorona", "Sphenomegacorona",
+  "Hebesphenomegacorona", "Disphenocingulum", "Bilunabirotunda", "Triangular Hebesphenorotunda" ]
+
+/-- the Johnson rows keyed by name instead of number -/
+def johnsonByName : List Solid :=
+  List.zipWith (fun s n => { s with name := n }) johnson johnsonNames
+
+/-- right prisms and antiprisms over regular 3…10-gons: prism `(2n, 3n, n+2)` with `n` squares and two
+    `n`-gons, antiprism `(2n, 4n, 2n+2)` with `2n` triangles and two `n`-gons -/
+def prismAntiprism : List Solid := [
+  ⟨"Triangular Prism", 6, 9, 5, [(3, 2), (4, 3)]⟩,
+  ⟨"Square Prism", 8, 12, 6, [(4, 6)]⟩,
+  ⟨"Pentagonal Prism", 10, 15, 7, [(4, 5), (5, 2)]⟩,
+  ⟨"Hexagonal Prism", 12, 18, 8, [(4, 6), (6, 2)]⟩,
+  ⟨"Heptagonal Prism", 14, 21, 9, [(4, 7), (7, 2)]⟩,
+  ⟨"Octagonal Prism", 16, 24, 10, [(4, 8), (8, 2)]⟩,
+  ⟨"Nonagonal Prism", 18, 27, 11, [(4, 9), (9, 2)]⟩,
+  ⟨"Decagonal Prism", 20, 30, 12, [(4, 10), (10, 2)]⟩,
+  ⟨"Triangular Antiprism", 6, 12, 8, [(3, 8)]⟩,
+  ⟨"Square Antiprism", 8, 16, 10, [(3, 8), (4, 2)]⟩,
+  ⟨"Pentagonal Antiprism", 10, 20, 12, [(3, 10), (5, 2)]⟩,
+  ⟨"Hexagonal Antiprism", 12, 24, 14, [(3, 12), (6, 2)]⟩,
+  ⟨"Heptagonal Antiprism", 14, 28, 16, [(3, 14), (7, 2)]⟩,
+  ⟨"Octagonal Antiprism", 16, 32, 18, [(3, 16), (8, 2)]⟩,
+  ⟨"Nonagonal Antiprism", 18, 36, 20, [(3, 18), (9, 2)]⟩,
+  ⟨"Decagonal Antiprism", 20, 40, 22, [(3, 20), (10, 2)]⟩ ]
+
+/-- pyramids `(n+1, 2n, n+1)` and dipyramids `(n+2, 3n, 2n)` over 3,4,5-gons -/
+def pyramidDipyramid : List Solid := [
+  ⟨"Triangular Pyramid", 4, 6, 4, [(3, 4)]⟩,
+  ⟨"Square Pyramid", 5, 8, 5, [(3, 4), (4, 1)]⟩,
+  ⟨"Pentagonal Pyramid", 6, 10, 6, [(3, 5), (5, 1)]⟩,
+  ⟨"Triangular Dipyramid", 5, 9, 6, [(3, 6)]⟩,
+  ⟨"Square Dipyramid", 6, 12, 8, [(3, 8)]⟩,
+  ⟨"Pentagonal Dipyramid", 7, 15, 10, [(3, 10)]⟩ ]
+
+/-- the solids of the 10.1126/science.1220869 repository that belong to none of the families, by the
+    name the record gives (zonohedra with rhombic faces, Dürer's truncated rhombohedron, the elongated
+    dodecahedron with 8 rhombi and 4 hexagons) -/
+def otherSolids : List Solid := [
+  ⟨"Squashed Dodecahedron", 14, 24, 12, [(4, 12)]⟩,
+  ⟨"Rhombic Icosahedron", 22, 40, 20, [(4, 20)]⟩,
+  ⟨"Rhombic Enneacontahedron", 92, 180, 90, [(4, 90)]⟩,
+  ⟨"Obtuse Golden Rhombohedron", 8, 12, 6, [(4, 6)]⟩,
+  ⟨"Acute Golden Rhombohedron", 8, 12, 6, [(4, 6)]⟩,
+  ⟨"Duerers Solid", 12, 18, 8, [(3, 2), (5, 6)]⟩,
+  ⟨"Elongated Dodecahedron", 18, 28, 12, [(4, 8), (6, 4)]⟩ ]
 
 /-- internal consistency of a hand-entered row: Euler's formula and, when a census was entered,
     the census adds up to F and the corners add up to 2E -/
@@ -389,11 +542,30 @@ end Tab
 
 namespace Tab
 
-/-- the entry's name is in the hand-entered list and the entry has that row's counts -/
-def textbookOk (rows : List Textbook.Solid) (e : Entry) : Bool :=
-  match rows.find? (fun s => s.name == e.name) with
+/-- the row called `nm` exists in the hand-entered list and the entry has that row's counts and face
+    census.  No row ⇒ `false`: an entry without a specification row fails its obligation. -/
+def textbookOkAs (rows : List Textbook.Solid) (nm : String) (e : Entry) : Bool :=
+  match rows.find? (fun s => s.name == nm) with
   | none => false
   | some s => matchesTextbook s e
+
+/-- the entry is the row's solid with some faces split along diagonals: the same vertices, and as many
+    extra edges as extra faces (`F' − F = E' − E ≥ 0`).  Used ONLY for the seven repository solids outside
+    the families (`Textbook.otherSolids`): /repo gives six of them to six significant digits, their rhombic
+    / pentagonal faces are planar to about 10⁻⁶ only, and the convex hull the implementation builds has
+    those faces split into triangles (notes/C18.md, "Observed").  The oracle checks that merging the
+    faces that are coplanar within 10⁻⁴ gives exactly the row. -/
+def matchesSplit (s : Textbook.Solid) (e : Entry) : Bool :=
+  Nat.beq (numV e) s.v && Nat.ble s.f (numF e) && Nat.beq (numE2 e + 2 * s.f) (2 * s.e + 2 * numF e)
+
+/-- the row called `nm` exists and the entry is that solid up to split faces -/
+def textbookSplitOkAs (rows : List Textbook.Solid) (nm : String) (e : Entry) : Bool :=
+  match rows.find? (fun s => s.name == nm) with
+  | none => false
+  | some s => matchesSplit s e
+
+/-- the entry's name is in the hand-entered list and the entry has that row's counts -/
+def textbookOk (rows : List Textbook.Solid) (e : Entry) : Bool := textbookOkAs rows e.name e
 
 /-- every hand-entered row is the name of exactly one entry, and there are no other entries -/
 def coversTextbook (rows : List Textbook.Solid) (t : List Entry) : Bool :=
@@ -417,15 +589,34 @@ def johnsonNumber (s : String) : Option Nat :=
     else none
   | _ => none
 
+/-- the row of Johnson solid number `n` (1-based) -/
+def johnsonRow (n : Nat) : Option Textbook.Solid :=
+  match n with
+  | 0 => none
+  | k + 1 => Textbook.johnson[k]?
+
+/-- Johnson's name of solid number `n` (1-based) -/
+def johnsonName (n : Nat) : Option String :=
+  match n with
+  | 0 => none
+  | k + 1 => Textbook.johnsonNames[k]?
+
 /-- the entry's Johnson number (`short_name`) is in the hand-entered list (row `n − 1`) and the
-    entry has that row's counts -/
+    entry has that row's counts and face census -/
 def johnsonCountsOk (e : Entry) : Bool :=
   match johnsonNumber e.short with
-  | some (k + 1) =>
-    (match Textbook.johnson[k]? with
+  | some n =>
+    (match johnsonRow n with
      | some s => matchesTextbook s e
      | none => false)
-  | _ => false
+  | none => false
+
+/-- the entry's name is Johnson's name of the solid with the entry's Johnson number -/
+def johnsonNameOk (e : Entry) : Bool :=
+  match johnsonNumber e.short with
+  | some n => johnsonName n == some e.name
+  | none => false
+
 /-- the Johnson numbers of the entries are `1 … 92`, each once: 92 entries whose numbers form the
     bit set `2⁹³ − 2` -/
 def coversJohnson (t : List Entry) : Bool :=
@@ -434,10 +625,43 @@ def coversJohnson (t : List Entry) : Bool :=
     && Nat.beq (bitOr (t.map fun e => (johnsonNumber e.short).getD 0))
         (Nat.sub (Nat.shiftLeft 1 (Textbook.johnson.length + 1)) 2)
 
-def johnsonOk (e : Entry) : Bool := polyhedronOk e && regularOk e && johnsonCountsOk e
+def johnsonOk (e : Entry) : Bool :=
+  polyhedronOk e && regularOk e && johnsonCountsOk e && johnsonNameOk e
+def prismAntiprismOk (e : Entry) : Bool := polyhedronOk e && textbookOk Textbook.prismAntiprism e
+def pyramidDipyramidOk (e : Entry) : Bool := polyhedronOk e && textbookOk Textbook.pyramidDipyramid e
 def plainOk (e : Entry) : Bool := polyhedronOk e
+
+/-- the hand-entered rows of the family a repository record cites (`source` = file name) -/
+def textbookBySource (src : String) : List Textbook.Solid :=
+  if src == "platonic.json" then Textbook.platonic
+  else if src == "archimedean.json" then Textbook.archimedean
+  else if src == "catalan.json" then Textbook.catalan
+  else if src == "johnson.json" then Textbook.johnsonByName
+  else if src == "prism_antiprism.json" then Textbook.prismAntiprism
+  else if src == "pyramid_dipyramid.json" then Textbook.pyramidDipyramid
+  else []
+
+/-- the specification row of a repository record (key `e.name` = code `P01 … O22`, `e.ref` = its `name`
+    field, `e.source` = cited family file or `""`):
+    * a key `Jnn` is Johnson solid number `nn`: the record has that row's counts and census, and when
+      it cites `johnson.json` the cited name is Johnson's name of number `nn`;
+    * a record that cites a family has the counts and census of the row of that family called `e.ref`;
+    * a record that cites nothing is a `Jnn` (above) or one of `Textbook.otherSolids` by `e.ref`, up to
+      faces split by the six-digit coordinates (`matchesSplit`). -/
+def repoTextbookOk (e : Entry) : Bool :=
+  (match johnsonNumber e.name with
+   | some n =>
+     (match johnsonRow n with
+      | some s => matchesTextbook s e
+      | none => false)
+     && (!(e.source == "johnson.json") || johnsonName n == some e.ref)
+   | none => true)
+  && (if e.source == "" then
+        (johnsonNumber e.name).isSome || textbookSplitOkAs Textbook.otherSolids e.ref e
+      else textbookOkAs (textbookBySource e.source) e.ref e)
+
 def repositoryOk (lookup : String → List Entry) (e : Entry) : Bool :=
-  polyhedronOk e && sourceOk lookup e
+  polyhedronOk e && sourceOk lookup e && repoTextbookOk e
 
 /-- names of a table are pairwise different -/
 def namesNodup : List String → Bool
